@@ -349,9 +349,11 @@ def run_system(ctx, desc, idx):
     rec["state0"] = (list(system.state.value), st_units, [int(c) for c in system.chemostats])
     # ---------------------------------------------------------------- defaults: formula, units, layout
     if "state_override" not in desc:
-        if st_units != (tuple(desc["net_sys"]), QTYD):
-            ctx.violation("default-state-units", "the default state is expressed in %r, expected an amount in the network's system %r"
-                          % (st_units, desc["net_sys"]), case, impl=st_units, expected=[desc["net_sys"], QTYD])
+        # which units system the state is expressed in is the code's choice (the network's; compared with the model in the
+        # correspondence); the property demands an amount with the right SI value
+        if st_units[1] != QTYD or st_units[0][0] not in SPACE or st_units[0][1] not in TIME or st_units[0][2] not in QTY:
+            ctx.violation("default-state-units", "the default state is expressed in %r, not an amount" % (st_units,), case,
+                          impl=st_units, expected=[desc["net_sys"], QTYD])
         elif len(system.state.value) != n * nsp:
             ctx.violation("default-state-size", "default state has %d entries for %d species x %d cells" % (len(system.state.value), nsp, n),
                           case, impl=len(system.state.value), expected=n * nsp)
@@ -535,7 +537,7 @@ def run_system(ctx, desc, idx):
             wants = [expected_state_si(desc2, a, c) for a in range(nsp) for c in range(n)]
             wantc = [expected_chem(desc2, a, c) for a in range(nsp) for c in range(n)]
             if len(si) != len(wants) or not all(close(a, b, rel=1e-9) for a, b in zip(si, wants)) \
-                    or units_tuple(system.state.units) != (tuple(desc["net_sys"]), QTYD):
+                    or units_tuple(system.state.units)[1] != QTYD:
                 ctx.violation("regenerate-state", "set_default_state after editing species %d does not reflect the edit" % s, ecase,
                               impl=[float(v) for v in si], expected=[float(v) for v in wants])
             if [int(v) for v in system.chemostats] != wantc:
